@@ -24,7 +24,7 @@ def parseOp (nk : Nat) (s : String) : Option Sop :=
     | none => none
   | _ => none
 
-def stores : List String := ["mem", "ufs", "aufs", "diskd", "rock"]
+def stores : List String := ["mem", "shm", "ufs", "aufs", "diskd", "rock"]
 
 def handle (line : String) : String :=
   match Driver.words line with
